@@ -2,7 +2,7 @@
    The transition-system model is model/C20_Peach.v; this file has the case
    record (what the Go runner observed), the property oracle [check_*] evaluated
    on the implementation's observations, and the model's acceptor [accepts_*]
-   (which observations some schedule of the FAITHFUL model can produce).
+   (which observations some schedule of the faithful model can produce).
    Executable Gallina only. *)
 From verif Require Import lib.Base model.C20_Peach.
 Open Scope nat_scope.
@@ -71,7 +71,7 @@ Definition check_runpar (fs : list cbres) (o : pobs) : bool :=
   && negb (o_late o).
 
 (* ---- the model's acceptor: observations some schedule of the faithful model
-   (fix_recheck = fix_acqerr = false, no cancellation) can end with ---- *)
+   (both repairs in, no cancellation) can end with ---- *)
 Definition breakers (cbs : list cbres) : nat :=
   length (filter (fun r => is_breaker (cb_kind r)) cbs).
 
@@ -83,11 +83,11 @@ Definition accepts_peach (b : option nat) (cbs : list cbres) (o : pobs) : bool :
   && nat_list_eqb (o_calls o) (repeat 1 m ++ repeat 0 (n - m))
   (* an input is skipped only after a started callback broke or failed *)
   && ((n <=? m) || negb (no_breaker (firstn m cbs)))
-  (* the dispatcher saw broken = 0 before the last started input, after Acquire
-     had succeeded for the one before it: among the first m-2 callbacks fewer
-     than [bound] may be breakers (they must still hold their tokens) *)
+  (* the dispatcher saw broken = 0 for the last started input after Acquire had
+     succeeded for it: among the m-1 callbacks before it fewer than [bound] may
+     be breakers (they must still hold their tokens) *)
   && match b with
-     | Some k => (breakers (firstn (m - 2) cbs) <? k) && (o_maxrun o <=? k)
+     | Some k => (breakers (firstn (m - 1) cbs) <? k) && (o_maxrun o <=? k)
      | None => true
      end
   && (o_maxrun o <=? m)
